@@ -81,17 +81,26 @@ BLOCKS = {
     "selact": "SELECTED_OUTPUT 1\n -active false\nEND\n",
     "transport": ("SOLUTION 0\n pH 7\n Na 5\n Cl 5 charge\nTRANSPORT\n -cells 2\n -shifts 2\n -lengths 0.1\n -time_step 10\n"
                   " -dispersivities 0.01\n -punch_cells 1-2\n -print_cells 1\nEND\n"),
+    # ---- the numbered store across simulations: a cell with a pressure ramp is copied, its source redefined, other
+    # entities copied, the copy used (COPY requests are queued while reading and carried out at the end of a simulation)
+    "copycell": "REACTION_PRESSURE 1\n 10 20\nCOPY cell 1 5\nEND\n",
+    "press2": "REACTION_PRESSURE 1\n 100 200\nEND\n",
+    "run5": "RUN_CELLS\n -cells 5\nEND\n",
     # inverse modelling between solutions 2 and 3 (mole balance: 1 mmol NaCl); its selected-output values are known to
     # be appended to an unfinished table row (finding F3 of C05)
     "inverse": ("SOLUTION 3\n pH 5\n K 2\n Na 1\n Cl 3 charge\nPHASES\nHalite\n NaCl = Na+ + Cl-\n log_k 1.582\n"
                 "INVERSE_MODELING 1\n -solutions 2 3\n -uncertainty 0.05\n -phases\n  Halite\n -balances\n  K 0.05\nEND\n"),
 }
 ORDER = ["react", "selout", "upunch", "upunch3", "punchoff", "punchon", "selout2", "knobs", "dbadd", "rates", "kin", "reaction", "incr",
-         "equil", "mix", "exch", "temp", "runcells", "copy", "advect", "surf", "gas", "selact", "transport", "inverse"]
+         "equil", "mix", "exch", "temp", "runcells", "copy", "advect", "surf", "gas", "selact", "transport", "inverse",
+         "copycell", "press2", "run5"]
 CORE = ["react", "selout", "upunch", "punchoff", "selout2", "knobs", "dbadd", "rates", "kin", "runcells"]
-QUICK = [b for b in ORDER if b not in ("copy", "temp", "gas", "mix", "equil", "surf", "advect")]
-ALPHABETS = {"full": ORDER, "quick": QUICK, "core": CORE}
-DEPTH = {"quick": {"quick": 2}, "thorough": {"full": 2, "core": 3}}
+STORE = ["copycell", "press2", "copy", "temp", "run5", "react"]
+QUICK = [b for b in ORDER if b not in ("copy", "temp", "gas", "mix", "equil", "surf", "advect", "copycell", "press2", "run5")]
+ALPHABETS = {"full": ORDER, "quick": QUICK, "core": CORE, "store": STORE}
+# alphabet -> (depth, k): every sequence of 1..depth blocks; k = None: the complete cut x entry-point space of each,
+# k = int: every execution within k deviations of the one-call execution
+DEPTH = {"quick": {"quick": (2, None), "store": (3, 2)}, "thorough": {"full": (2, None), "core": (3, None), "store": (4, 3)}}
 assert sorted(ORDER) == sorted(BLOCKS) and set(CORE) <= set(ORDER)
 
 
@@ -100,20 +109,20 @@ def assemble(seq):
 
 
 def sequences(tier):
-    """Every block sequence of length 1..depth over the alphabet (shorter first, alphabet order)."""
-    out, seen = [], set()
-    for name, depth in sorted(DEPTH[tier].items()):
+    """[(sequence, k)]: every block sequence of length 1..depth over each alphabet (shorter first, alphabet order); a
+    sequence reachable through two alphabets keeps the wider execution bound (None = complete)."""
+    best = {}
+    for name, (depth, kdev) in sorted(DEPTH[tier].items()):
         alpha = ALPHABETS[name]
-        for k in range(1, depth + 1):
-            for s in itertools.product(alpha, repeat=k):
-                if s not in seen:
-                    seen.add(s)
-                    out.append(s)
-    out.sort(key=lambda s: (len(s), [ORDER.index(b) for b in s]))
+        for n in range(1, depth + 1):
+            for s in itertools.product(alpha, repeat=n):
+                if s not in best or (best[s] is not None and (kdev is None or kdev > best[s])):
+                    best[s] = kdev
+    out = sorted(best.items(), key=lambda sk: (len(sk[0]), [ORDER.index(b) for b in sk[0]]))
     return out
 
 
 def describe():
     return {"setup_keywords": ["SOLUTION 1", "SOLUTION 2", "REACTION 1", "EQUILIBRIUM_PHASES 1", "RATES r1", "KINETICS 1",
                                "SELECTED_OUTPUT 1", "USER_PUNCH 1 (PUT/GET counter)"],
-            "blocks": ORDER, "core_blocks": CORE, "quick_blocks": QUICK}
+            "blocks": ORDER, "core_blocks": CORE, "quick_blocks": QUICK, "store_blocks": STORE, "depth_and_deviation_bound": DEPTH}
